@@ -7,7 +7,7 @@
 use std::{
     collections::HashMap,
     hash::{BuildHasher, Hash},
-    time::{Duration, Instant},
+    time::{Duration, Instant, SystemTime},
 };
 
 #[cfg(feature = "serde1")]
@@ -29,6 +29,16 @@ impl TimeUntil for Instant {
     fn time_until(&self) -> Duration {
         self.duration_since(Instant::now())
     }
+}
+
+/// The wall-clock time at which `deadline` will be reached, for display in traces. Saturates at
+/// the last second RFC 3339 can express (the end of year 9999) rather than overflowing or yielding
+/// a time that cannot be formatted.
+pub fn wall_clock_deadline(deadline: &Instant) -> SystemTime {
+    let max = SystemTime::UNIX_EPOCH + Duration::from_secs(253_402_300_799);
+    SystemTime::now()
+        .checked_add(deadline.time_until())
+        .map_or(max, |deadline| deadline.min(max))
 }
 
 /// Collection compaction; configurable `shrink_to_fit`.
